@@ -67,6 +67,11 @@ theorem continues_of {σ} (S : Sys σ) (a : Spec σ) (op : Op)
     · rw [hf] at h; cases h
     · exact ⟨g', last, c, (by intro pts' h; cases h; exact hmem), (by intro t' n' h; cases h)⟩
 
+theorem parsUpdate_err (p : Pars) (kvs : Upd) (e : Exc) (h : (parsUpdate p kvs).2 = some e) : (parsUpdate p kvs).1 = p := by
+  unfold parsUpdate at h ⊢
+  split <;> simp_all
+
+
 /-! ### `scaledValues` -/
 
 theorem scaledValues_some (p : Pars) : ∀ (kvs u : Upd), scaledValues p kvs = some u →
